@@ -336,12 +336,9 @@ def cases(tier, seed):
             if not thorough and law == "AutoDiff" and not default_et:
                 continue  # quick: the jax law (3 s of compilation per case) on the default element types only
             out.append({"kind": "material", "law": law, "elemType": et, "letters": "full" if (thorough or default_et) else "reduced"})
-    # --- operators: level of the state/variant alphabet (full / reduced / minimal) by tier and element weight
+    # --- operators: level of the state/variant alphabet
     def level(et, default_et):
-        heavy = NPE[et] * Z.dim_of(et) >= 45
-        if thorough:
-            return "reduced" if heavy else "full"
-        return "full" if default_et else ("minimal" if heavy else "reduced")
+        return "full" if (thorough or default_et) else "reduced"
 
     for op in BULK_OPS_LAW:
         for law in LAWS:
@@ -653,12 +650,12 @@ def _bulk_states(dim, Xe):
 
 
 # state / variant alphabets of the operator checks per level
-SPK_STATES = {"full": ["zero", "homF1", "inhA", "inhB"], "reduced": ["homF1", "inhA"], "minimal": ["inhA"]}
+SPK_STATES = {"full": ["zero", "homF1", "inhA", "inhB"], "reduced": ["homF1", "inhA"]}
 PAIRS = {"full": [("zero", "inhB"), ("inhA", "inhB"), ("homF1", "homF2"), ("inhA", "inhA")],
-         "reduced": [("inhA", "inhB"), ("homF1", "homF2")], "minimal": [("inhA", "inhB")]}
+         "reduced": [("inhA", "inhB"), ("homF1", "homF2")]}
 TQ_VARIANTS = {"full": [(0.5, 1, None), (0.5, 2, None), (0.5, 3, None), (0.5, 5, None), (1.0, 3, None), (0.7, 3, None), (0.5, 3, 1e-6), (0.5, 3, 1e-10)],
-               "reduced": [(0.5, 3, None), (0.7, 2, None), (0.5, 3, 1e-8)], "minimal": [(0.7, 3, None)]}
-NOLAW_STATES = {"full": ["zero", "homF1", "inhA"], "reduced": ["homF1", "inhA"], "minimal": ["inhA"]}
+               "reduced": [(0.5, 3, None), (0.7, 2, None), (0.5, 3, 1e-8)]}
+NOLAW_STATES = {"full": ["zero", "homF1", "inhA"], "reduced": ["homF1", "inhA"]}
 
 
 def _vec(fe):
